@@ -59,10 +59,10 @@ CHECKS["C12"] = dict(
              redirects="spec/redirects.json", reach=["drained", "eof"], **_C12_KEYS),
         dict(name="H12a-signed", pkgs=["./s3api/utils"], entry="s3api/utils.VfChunkSignedValid", pkgname="utils", native=True,
              redirects="spec/redirects.json", reach=["drained", "eof"], **_C12_KEYS),
-        # thorough budget 4m instead of the default 8m: this harness keeps 16 fallback solver processes busy and the machine ran out of
-        # memory once at 8m (gose 10 GB + cvc5 1.8 GB each); a reached budget is reported as a note
+        # thorough budget 2m instead of the default 8m: this harness keeps 16 fallback solver processes busy and the machine ran out of
+        # memory once at 8m (gose 10 GB + cvc5 1.8 GB each; 49 GB in use at 4m); a reached budget is reported as a note
         dict(name="H12a-signed-trailer", pkgs=["./s3api/utils"], entry="s3api/utils.VfChunkSignedTrailerValid", pkgname="utils", native=True,
-             redirects="spec/redirects.json", reach=["drained", "eof"], budget={"thorough": "4m"}, **_C12_KEYS),
+             redirects="spec/redirects.json", reach=["drained", "eof"], budget={"thorough": "2m"}, **_C12_KEYS),
         dict(name="H12b-unsigned", pkgs=["./s3api/utils"], entry="s3api/utils.VfChunkUnsignedInvalid", pkgname="utils", native=True,
              redirects="spec/redirects.json", reach=["accepted", "rejected"], key_trace=['"mutation=']),
         dict(name="H12b-signed", pkgs=["./s3api/utils"], entry="s3api/utils.VfChunkSignedInvalid", pkgname="utils", native=True,
